@@ -16,6 +16,7 @@ package main
 
 import (
 	"bytes"
+	"errors"
 	"fmt"
 	"io"
 	"os"
@@ -53,8 +54,32 @@ type evT struct {
 	Msg   string `json:"msg"`
 	Key   string `json:"key,omitempty"`
 	Val   string `json:"val,omitempty"`
-	Panic bool   `json:"panic,omitempty"` // created by Logger.Panic()
+	Panic bool   `json:"panic,omitempty"`       // created by Logger.Panic()
+	Fin   string `json:"entry_point,omitempty"` // the call that ends in the write (finalizers, below); "" = WithLevel(level)...Msg(msg)
 	ref   []byte // bytes of this event through a plain logger (reference)
+}
+
+// finalizers: every exported call through which an event reaches the writer (they all end in Event.msg, the one place
+// a write error is reported).  The first four keep the level of the event; the others imply one (withFin sets it).
+var finalizers = []string{"msg", "msgf", "send", "msgfunc", "log", "logger-write", "print", "printf", "println", "err-nil", "err"}
+
+// withFin returns e finalised through entry point f, with the level that entry point writes at.
+func withFin(e evT, f string) evT {
+	e.Fin = f
+	switch f {
+	case "log", "logger-write":
+		e.Level = int(zerolog.NoLevel)
+	case "print", "printf", "println":
+		e.Level = int(zerolog.DebugLevel)
+	case "err-nil":
+		e.Level = int(zerolog.InfoLevel)
+	case "err":
+		e.Level = int(zerolog.ErrorLevel)
+	}
+	if f != "" {
+		e.Panic = false
+	}
+	return e
 }
 
 type outT struct {
@@ -229,15 +254,45 @@ func emitEvent(l *zerolog.Logger, e evT) (panicked bool, pv interface{}) {
 		}
 	}()
 	var ev *zerolog.Event
-	if e.Panic {
-		ev = l.Panic()
-	} else {
-		ev = l.WithLevel(zerolog.Level(e.Level))
+	switch e.Fin {
+	case "logger-write":
+		l.Write([]byte(e.Msg + "\n"))
+		return
+	case "print":
+		l.Print(e.Msg)
+		return
+	case "printf":
+		l.Printf("%s|%d", e.Msg, len(e.Msg))
+		return
+	case "println":
+		l.Println(e.Msg)
+		return
+	case "log":
+		ev = l.Log()
+	case "err-nil":
+		ev = l.Err(nil)
+	case "err":
+		ev = l.Err(errors.New("verif-logged-error " + e.Val))
+	default:
+		if e.Panic {
+			ev = l.Panic()
+		} else {
+			ev = l.WithLevel(zerolog.Level(e.Level))
+		}
 	}
 	if e.Key != "" {
 		ev = ev.Str(e.Key, e.Val)
 	}
-	ev.Msg(e.Msg)
+	switch e.Fin {
+	case "msgf":
+		ev.Msgf("%s|%d", e.Msg, len(e.Msg))
+	case "send":
+		ev.Send()
+	case "msgfunc":
+		ev.MsgFunc(func() string { return e.Msg })
+	default:
+		ev.Msg(e.Msg)
+	}
 	return
 }
 
@@ -686,7 +741,7 @@ func genCase(r *Rng) *caseT {
 // ---------------------------------------------------------------- driver
 
 func runC14(c *Ctx) {
-	c.Res.Rule = fmt.Sprintf("a case is (writer configuration: wrappers around MultiLevelWriter or a single destination, per destination a wrapper chain of SyncWriter/FilteredLevelWriter/LevelWriterAdapter over an io.Writer or LevelWriter fake; events with level/message/field; outcome matrix ok|error value|short write per event and destination; the error value of an outcome is one of %d kinds - opaque errors, the standard library sentinels themselves (os.ErrClosed, io.EOF, io.ErrClosedPipe, context.Canceled, net.ErrClosed, syscall errnos, ...), values wrapping them (%%w, *fs.PathError, *os.SyscallError, *net.OpError, multi-errors), Timeout/Temporary answers, an error whose Is matches every target, an empty text - directed sweep of every kind in sentinel and wrapped form through five destination positions with ErrorHandler and with the stderr fallback, and mixed into every other stream by error id); observed = per logging call the ordered trace of destination calls (entry, level, bytes), ErrorHandler/stderr reports (error identity) and done. Bounded-exhaustive: all 3-outcome matrices for <=3 destinations x <=2 events (thorough: <=3 events) over 4 fixed kind assignments, the full filter-level x event-level grid; then seeded random (<=5 destinations, <=6 events, chains <=3); retune histories: one writer constructed once and used over 2-4 segments, the exported Level field of its FilteredLevelWriters assigned between segments (directed grid: every ordered pair old/new level x six filter positions x events at all levels before and after; seeded random), each segment shipped as one case under the levels then in force. non-trivial = at least one reached destination fails and at least two destinations are configured; distinct by case text", len(errKinds))
+	c.Res.Rule = fmt.Sprintf("a case is (writer configuration: wrappers around MultiLevelWriter or a single destination, per destination a wrapper chain of SyncWriter/FilteredLevelWriter/LevelWriterAdapter over an io.Writer or LevelWriter fake; events with level/message/field; outcome matrix ok|error value|short write per event and destination; the error value of an outcome is one of %d kinds - opaque errors, the standard library sentinels themselves (os.ErrClosed, io.EOF, io.ErrClosedPipe, context.Canceled, net.ErrClosed, syscall errnos, ...), values wrapping them (%%w, *fs.PathError, *os.SyscallError, *net.OpError, multi-errors), Timeout/Temporary answers, an error whose Is matches every target, an empty text - directed sweep of every kind in sentinel and wrapped form through five destination positions with ErrorHandler and with the stderr fallback, the failing events also entering through each of the eleven entry points that end in the write (Msg, Msgf, Send, MsgFunc, Log, Logger.Write, Print, Printf, Println, Err(nil), Err(err)), and mixed into every other stream by error id; entry-point sweep: every entry point x {ok, error, short write, error behind a short write} x three writer shapes x ErrorHandler/stderr); observed = per logging call the ordered trace of destination calls (entry, level, bytes), ErrorHandler/stderr reports (error identity) and done. Bounded-exhaustive: all 3-outcome matrices for <=3 destinations x <=2 events (thorough: <=3 events) over 4 fixed kind assignments, the full filter-level x event-level grid; then seeded random (<=5 destinations, <=6 events, chains <=3); retune histories: one writer constructed once and used over 2-4 segments, the exported Level field of its FilteredLevelWriters assigned between segments (directed grid: every ordered pair old/new level x six filter positions x events at all levels before and after; seeded random), each segment shipped as one case under the levels then in force. non-trivial = at least one reached destination fails and at least two destinations are configured; distinct by case text", len(errKinds))
 	var err error
 	stderrFile, err = os.Create(c.Out + "/stderr_capture.txt")
 	if err != nil {
@@ -852,11 +907,74 @@ func runC14(c *Ctx) {
 				}
 				emit(cs, "error-values")
 				errSweep++
+				if handler || (id+si)%4 == 0 {
+					// the same value when the failing events come in through other entry points (two of the eleven per
+					// case, rotating, so that every kind of value meets every entry point over the sweep)
+					cs2 := &caseT{Cfg: cs.Cfg, Om: sh.om}
+					cs2.Evs = []evT{{Level: 1, Msg: "before"},
+						withFin(evT{Level: 3, Msg: "fails", Key: "k", Val: "v"}, finalizers[(id+2*si)%len(finalizers)]),
+						withFin(evT{Level: 2, Msg: "fails again"}, finalizers[(id+2*si+1+id/len(finalizers))%len(finalizers)]),
+						{Level: 1, Msg: "after"}}
+					if sh.cfg.Dests[0].Wraps != nil && len(sh.cfg.Dests[0].Wraps) > 0 && sh.cfg.Kind == "single" {
+						// the filtered single destination (level >= info): keep the failing events at or above it
+						for k := 1; k <= 2; k++ {
+							if cs2.Evs[k].Level < 1 {
+								cs2.Evs[k] = withFin(cs2.Evs[k], "msgf")
+								cs2.Evs[k].Level = 2
+							}
+						}
+					}
+					emit(cs2, "error-values-entry-points")
+					errSweep++
+				}
 			}
 		}
 	}
 	c.Res.ExtraCoverage["error_value_kinds"] = len(errKinds)
 	c.Res.ExtraCoverage["error_value_cases"] = errSweep
+
+	// 3c. every entry point that ends in the write (Msg, Msgf, Send, MsgFunc, Log, Logger.Write, Print, Printf,
+	// Println, Err) x {all ok, error, short write, error behind a short write} x {the only destination, the middle
+	// one of three, behind SyncWriter + filter} x ErrorHandler / stderr: "the logging call still returns normally,
+	// ErrorHandler is invoked exactly once for that event with that error, and subsequent events are complete" is
+	// said of the logging call, whichever call it is.
+	finSweep := 0
+	for fi, f := range finalizers {
+		for oi, kind := range []string{"ok", "err", "short", "short-then-err"} {
+			for ci := 0; ci < 3; ci++ {
+				for _, handler := range []bool{true, false} {
+					ok := outT{Kind: "ok"}
+					bad := outT{Kind: "err", E: (fi*7 + oi*3 + ci) % (2 * len(errKinds))}
+					short := outT{Kind: "short", N: 1}
+					var cfg cfgT
+					var row []outT
+					switch ci {
+					case 0:
+						cfg = cfgT{Kind: "single", Wraps: []wrapT{}, Dests: []destT{L}}
+						row = []outT{map[string]outT{"ok": ok, "err": bad, "short": short, "short-then-err": bad}[kind]}
+					case 1:
+						cfg = cfgT{Kind: "multi", Wraps: []wrapT{}, Dests: []destT{P, L, P}}
+						row = map[string][]outT{"ok": {ok, ok, ok}, "err": {ok, bad, ok}, "short": {ok, short, ok}, "short-then-err": {ok, short, bad}}[kind]
+					default:
+						cfg = cfgT{Kind: "multi", Wraps: []wrapT{{Kind: "sync"}}, Dests: []destT{F(0, "level"), {Leaf: "plain", Wraps: []wrapT{{Kind: "sync"}}}}}
+						row = map[string][]outT{"ok": {ok, ok}, "err": {bad, ok}, "short": {short, ok}, "short-then-err": {short, bad}}[kind]
+					}
+					clean := make([]outT, len(row))
+					for i := range clean {
+						clean[i] = ok
+					}
+					cs := &caseT{Cfg: cfg, Om: [][]outT{row, row, clean}}
+					cs.Cfg.Handler = handler
+					g := finalizers[(fi+1+oi)%len(finalizers)]
+					cs.Evs = []evT{withFin(evT{Level: 2, Msg: "first", Key: "k", Val: "v"}, f), withFin(evT{Level: 4, Msg: "second"}, g), {Level: 1, Msg: "after"}}
+					emit(cs, "entry-points")
+					finSweep++
+				}
+			}
+		}
+	}
+	c.Res.ExtraCoverage["entry_point_cases"] = finSweep
+	c.Res.ExtraCoverage["entry_points"] = finalizers
 
 	// 4. seeded random
 	nrand := 1500
